@@ -131,6 +131,9 @@ def run_case(case):
     pname = case["procname"]
     opts = {"output_dependencies": True, "procname": pname, "default_str_storage": size,
             "initialize_vars": case["seed"] % 2 == 0, "filter_unused_linenum": case["seed"] % 3 == 0}
+    if case.get("no_prefix"):
+        # without the standard prologue nothing but the program's own statements pulls procedures in
+        opts["add_standard_prefix"] = False
     obs = {"counters": {}, "viols": [], "sets": {}}
     conv = harness.convert(text, **opts)
     plain = harness.convert(text, **dict(opts, output_dependencies=False))
@@ -271,6 +274,13 @@ def cases(tier, seed):
         for size in (32, 64, 200, 16, 1, 31, 255):
             k += 1
             yield {"seed": k, "size": size, "procname": names[k % len(names)], "hostile": False, "fixed_program": t}
+    # every statement kind alone, with and without the standard prologue (whose RUN _ecb_start otherwise roots every bundle)
+    from . import c07
+    for j, t in enumerate(c07.SINGLE_STATEMENTS):
+        for np_ in (True, False):
+            k += 1
+            yield {"seed": k, "size": [32, 80][j % 2], "procname": "prog", "hostile": False, "fixed_program": t if t.endswith("\n") else t + "\n",
+                   "no_prefix": np_}
     for i in range(n):
         yield {"seed": seed * 2654435 + i, "size": [32, 64, 200, 16, 1, 31][i % 6], "procname": names[i % len(names)],
-               "hostile": i % 4 != 3, "sample": i % 150 == 0}
+               "hostile": i % 4 != 3, "sample": i % 150 == 0, "no_prefix": i % 5 == 4}
